@@ -1994,7 +1994,11 @@ def run(ctx):
         "hand-written model of the table walkers (C13/Model.v), tied by the differential runs below",
         "harness writers (zip + XML templates, openpyxl for xlsx, strings for html/epub/rtf) and the Python mirrors of the "
         "Coq render functions — Coq re-checks `parsed tree = render doc` for every structured case",
-        "XLS: _read_content is driven with an xlrd Book stand-in (no OLE2 writer)",
+        "XLS: _read_content is driven with an xlrd Book stand-in (no OLE2 writer), workbooks of both date systems (1900/1904) with "
+        "recurring serials in one process; the expected native/header values of every cell are computed from xlrd alone "
+        "(xls_expected_cell), not from the extractor's own cell functions",
+        "process history: only what the run itself produces (many files per format in one process, both XLS date systems, repeated "
+        "header texts / sheets); there is no fresh-interpreter replay of the sample in another order",
         "slide order: ODP _parse_odf_length_to_px is modelled bit-exactly in IEEE-754 binary64 (Coq SpecFloat; float(decimal) = correctly "
         "rounded digits/10^k, assumed < 2^53 digits, <= 22 decimals, ASCII digits) and tied by an exhaustive small-grammar correspondence; "
         "PPTX _get_shape_position is modelled over the tree with int() as oracle; bounded float theorems state their bound (d/100 unit, d <= 3000)",
